@@ -46,6 +46,19 @@ let handle = function
       (match bw_run (z_of_int (int_of_string bufsize)) ([], Z0) (list_of l) with
        | None -> "valueerror"
        | Some ((wbuf, _), outs) -> show_list outs ^ " " ^ hex_of_bytes wbuf)
+  | ["refline"; r; sh; caps] ->
+      (* caps: "NONE", "_" (empty list) or hex tokens separated by ',' -> the line, hex *)
+      let cs = if caps = "NONE" then None else Some (if caps = "_" then [] else List.map bytes_of_hex (String.split_on_char ',' caps)) in
+      hex_of_bytes (format_ref_line (bytes_of_hex r) (bytes_of_hex sh) cs)
+  | ["extract"; line] ->
+      (match extract_capabilities (if line = "_" then [] else bytes_of_hex line) with
+       | None -> "valueerror"
+       | Some (t, cs) -> (if t = [] then "_" else hex_of_bytes t) ^ " " ^ (if cs = [] then "_" else String.concat "," (List.map (fun c -> if c = [] then "-" else hex_of_bytes c) cs)))
+  | ["wantline"; sh; caps] ->
+      hex_of_bytes (format_want_line (bytes_of_hex sh) (if caps = "_" then [] else List.map bytes_of_hex (String.split_on_char ',' caps)))
+  | ["extractwant"; line] ->
+      let (t, cs) = extract_want_line_capabilities (if line = "_" then [] else bytes_of_hex line) in
+      (if t = [] then "_" else hex_of_bytes t) ^ " " ^ (if cs = [] then "_" else String.concat "," (List.map (fun c -> if c = [] then "-" else hex_of_bytes c) cs))
   | _ -> "EXN bad request"
 
 let () = serve handle
